@@ -1,6 +1,6 @@
-"""C04 - run/skip/swallow per iteration; in-arguments step-scoped.
+"""C05 - foreach and while iterate as declared; nesting order.
 
-Theorems: lean/Props/C04.lean over the flow interpreter model (lean/PypyrModel/Flow/*).
+Theorems: lean/Props/C05.lean over the flow interpreter model (lean/PypyrModel/Flow/*).
 Tie: every case runs on the model (pmdriver) and on the real pypyr (in-process, generated .yaml
 files loaded through the real file loader, probe step `vprobe`); directed families carry an
 expectation computed from the property text alone (harness/floworacle.py) that judges the
@@ -10,7 +10,7 @@ observable and checked against generic invariants.
 from .. import flowcheck
 from .. import floworacle as fo
 
-LEAN_MODULES = ['Props.C04']
+LEAN_MODULES = ['Props.C05']
 TRUSTED = ['harness/flow_impl.py (yaml renderer, canonicaliser, virtual clock, scripted random.uniform)',
            'harness/probe/vprobe.py (probe step) and its model probeStep',
            'harness/floworacle.py (directed expectations written from the property text)',
@@ -24,8 +24,8 @@ def run(env, res):
     res.rule = ('directed families (expectation from the property text) first, then seeded random pipelines '
                 '(1-3 pipelines, 1-4 groups, 0-4 steps per group, decorators with p~0.25 each); a case is '
                 'non-trivial when the model accepts it and it terminates; distinct by canonical program text')
-    directed = [('c04', fo.c04_family, env.n(60, 100000))]
-    flowcheck.run_streams(env, res, directed, env.n(500, 20000), weights={'fail': 5, 'set': 2},
+    directed = [('c05', fo.c05_family, env.n(160, 100000))]
+    flowcheck.run_streams(env, res, directed, env.n(500, 20000), weights={'fail': 3, 'set': 2},
                           random_monitor=flowcheck.monitor_all)
 
 
